@@ -350,6 +350,7 @@ pub struct Host {
     pub backpressure: i64,
     pub calls: BTreeMap<&'static str, u64>,
     pub yields: u32,
+    pub lenient_waits: u32,
     next_token: u32,
     /// hook used by `[waitable-set-wait]` when nothing is pending: lets the
     /// host script advance.  Returns false if nothing can ever advance.
@@ -397,6 +398,7 @@ impl Host {
             backpressure: 0,
             calls: BTreeMap::new(),
             yields: 0,
+            lenient_waits: 0,
             next_token: 1,
             advance_in_wait: true,
         }
@@ -1394,6 +1396,10 @@ impl Host {
             Some(Obj::Subtask(s)) => KeyState { handle: h, exists: true, in_set: s.in_set, in_progress: !s.resolve_delivered, probed: false },
             _ => KeyState { handle: h, exists: false, in_set: None, in_progress: false, probed: false },
         }
+    }
+
+    pub fn end_is_done(&self, h: u32) -> bool {
+        matches!(self.obj(h), Some(Obj::End { shared, side }) if self.shared[*shared].ends[*side as usize].state == CState::Done)
     }
 
     pub fn is_unit_reader(&self, h: u32) -> bool {
